@@ -377,3 +377,40 @@ def write_evidence(pid, ev):
         json.dump(ev, f, indent=1, ensure_ascii=False)
     os.replace(tmp, p)
     return p
+
+
+# --------------------------------------------------------------------------------------------
+# extraction spot check: the same digest evaluated inside Coq (vm_compute) and by the extracted code
+# --------------------------------------------------------------------------------------------
+def extraction_spot_check(cases, workdir, limit=40):
+    """returns (n_checked, mismatches)"""
+    os.makedirs(workdir, exist_ok=True)
+    small = [c for c in cases if len(c.data) <= 120][:limit]
+    if not small:
+        return 0, []
+    vpath = os.path.join(workdir, "cases_digest.v")
+    with open(vpath, "w") as f:
+        f.write("From Coq Require Import List NArith.\nImport ListNotations.\nFrom RX.Model Require Import Base Builder Summary.\nOpen Scope N_scope.\nSet Printing Width 1000000.\nSet Printing Depth 1000000.\n")
+        for i, c in enumerate(small):
+            bs = "; ".join(str(x) for x in c.data)
+            f.write("Eval vm_compute in (%d, summary [%s] {| allow_dtd := %s; nodes_limit := %d |}).\n" % (i, bs, "true" if c.dtd else "false", c.limit))
+    rc, out = run(["timeout", "300", "coqc", "-Q", COQ, "RX", vpath], cwd=workdir)
+    if rc != 0:
+        return 0, ["coqc failed on the digest file: " + out[-500:]]
+    coq = {}
+    flat = " ".join(out.split())
+    for m in re.finditer(r"= \((\d+), \[([^\]]*)\]\)", flat):
+        coq[int(m.group(1))] = [int(x) for x in m.group(2).replace(" ", "").split(";") if x]
+    cpath = os.path.join(workdir, "digest.cases")
+    write_cases(small, cpath)
+    rc, out = run([os.path.join(OCAMLB, "driver"), "summary", cpath])
+    ext = {}
+    for line in out.splitlines():
+        f = line.split(" ")
+        if len(f) >= 2 and f[1] == "SUM":
+            ext[int(f[0])] = [int(x) for x in f[2:]]
+    mism = []
+    for i in range(len(small)):
+        if coq.get(i) != ext.get(i):
+            mism.append("case %d (%r): Coq %s, extracted %s" % (i, small[i].data[:60], str(coq.get(i))[:80], str(ext.get(i))[:80]))
+    return len(small), mism
